@@ -25,6 +25,7 @@ from vlib import Violation
 import evo
 
 KINDS = evo.MUT_KINDS   # none arch param act hp
+DEFAULT_SELECTION = ["ReLU", "ELU", "GELU"]     # documented default of Mutations(activation_selection=...)
 
 _evo_obs_space = evo.obs_space
 
@@ -268,6 +269,32 @@ class C02(vlib.Driver):
             cases = [c for c in cases if c["ops"] and c["ops"][0][0] == "all_methods"]
             self._precompute(cases)
             return cases
+        def actchain(algo, family, selection, n, seed, pop=2):
+            """n consecutive activation mutations (probability 1) of the whole population through ONE Mutations object built
+            with the default selection or with a caller-owned list, everybody trained in between twice, then a SECOND
+            Mutations object with the default selection created afterwards and used once"""
+            r = random.Random(f"C02-act-{algo}-{family}-{seed}")
+            ops = []
+            for j in range(n):
+                ops.append(["mutate", {"probs": [0, 0, 0, 1, 0], "mobj": "A", "selection": selection}, seed + j, False])
+                if j in (0, n - 1):
+                    ops += train_all(pop, r, act=(j == 0))
+            ops.append(["mutate", {"probs": [0, 0, 0, 1, 0], "mobj": "B", "selection": "default"}, seed + 50, False])
+            ops.append(["mutate", {"probs": [0, 0, 0, 1, 0], "mobj": "B", "selection": "default"}, seed + 51, False])
+            ops += train_all(pop, r, act=False)
+            return {"algo": algo, "family": family, "share": False, "netcfg": "none" if family == "dictimg" else "partial", "seed": seed,
+                    "pop": pop, "ops": ops}
+
+        for algo, fam, sel, n in (("DQN", "vector", "default", 5), ("RainbowDQN", "vector", ["Tanh", "ELU", "GELU", "ReLU"], 6),
+                                  ("CQN", "image", ["ELU", "GELU"], 4), ("NeuralTS", "vector", "default", 3),
+                                  ("NeuralUCB", "dictimg", ["GELU", "Tanh", "ELU"], 4)):
+            if only and only not in ("actchain", algo):
+                continue
+            cases.append(actchain(algo, fam, sel, n, 7))
+        if only == "actchain":
+            cases = [c for c in cases if any(o[0] == "mutate" and o[1].get("mobj") for o in c["ops"])]
+            self._precompute(cases)
+            return cases
         ACTOR_CRITIC = ["DDPG", "TD3", "PPO", "MADDPG", "MATD3", "IPPO"]
         only = os.environ.get("VERIF_C02_ONLY")      # developer shortcut for the mutation self-test (never registered)
         for algo in evo.ALGOS:
@@ -356,6 +383,7 @@ class C02(vlib.Driver):
         states = [self._snap(pop)]
         recs = []
         ops_run = []
+        mobjs, callers, origs = {}, {}, {}      # Mutations objects that live across several steps of one history
         for op0 in case["ops"]:
             if op0[0] == "all_methods":
                 # every mutation method the policy advertises (nested ones included), each forced once on every member,
@@ -372,7 +400,22 @@ class C02(vlib.Driver):
             k = op[0]
             if k == "mutate":
                 mspec, seed, pre = op[1], op[2], op[3]
-                if "kinds" in mspec:
+                mkey = mspec.get("mobj")
+                if mkey is not None and mkey in mobjs:
+                    m = mobjs[mkey]                      # the SAME Mutations object as in an earlier step
+                    m.log = []
+                elif mkey is not None:
+                    p = mspec["probs"]
+                    kw_ = {}
+                    if mspec.get("selection") not in (None, "default"):
+                        callers[mkey] = list(mspec["selection"])          # a caller-owned list, handed to the constructor
+                        kw_["activation_selection"] = callers[mkey]
+                    m = Rec(p[0], p[1], 0.3, p[2], p[3], p[4], mutation_sd=0.1, rand_seed=int(seed) % 100000, device="cpu",
+                            mutate_elite=mspec.get("mutate_elite", True), **kw_)
+                    mobjs[mkey] = m
+                    rec["sel_at_creation"] = list(m.activation_selection)
+                    origs[mkey] = list(mspec["selection"]) if mkey in callers else list(DEFAULT_SELECTION)
+                elif "kinds" in mspec:
                     m = Rec(1, 1, 0.3, 1, 1, 1, mutation_sd=0.1, rand_seed=int(seed) % 100000, device="cpu",
                             mutate_elite=mspec.get("mutate_elite", True))
                     table = {"none": m.no_mutation, "arch": m.architecture_mutate, "param": m.parameter_mutation,
@@ -403,6 +446,9 @@ class C02(vlib.Driver):
                 before_full = [{n: evo.arch_descr(evo.unwrap(a), n) for n in evals} for a in pop]
                 before_mods = [{n: [getattr(mm, "_orig_mod", mm) for mm in evo._modules_of(getattr(evo.unwrap(a), n))] for n in evals} for a in pop]
                 idx_before = [int(evo.unwrap(a).index) for a in pop]
+                act_before = [{n: [getattr(getattr(mm, "_orig_mod", mm), "activation", None) for mm in evo._modules_of(getattr(evo.unwrap(a), n))]
+                               for n in evals} for a in pop]
+                sel_orig = origs[mkey] if mkey is not None else list(m.activation_selection)
                 ids_before = [id(a) for a in pop]
                 # sub-configurations must be read before the call (the methods are only known afterwards): keep the
                 # init_dicts as canonical JSON
@@ -426,6 +472,14 @@ class C02(vlib.Driver):
                 rec["idx_before"], rec["idx_after"] = idx_before, [int(evo.unwrap(a).index) for a in out]
                 rec["same_objects"] = [id(a) == b for a, b in zip(out, ids_before)]
                 rec["labels"] = [evo.unwrap(a).mut for a in out]
+                import inspect as _insp
+                from agilerl.hpo.mutation import Mutations as _M
+                rec["act"] = {"orig": sel_orig, "sel_after": list(m.activation_selection),
+                              "caller_after": list(callers[mkey]) if mkey in callers else None,
+                              "default_after": list(_insp.signature(_M.__init__).parameters["activation_selection"].default),
+                              "nets": [{n: [act_before[i][n], [getattr(getattr(mm, "_orig_mod", mm), "activation", None)
+                                                               for mm in evo._modules_of(getattr(evo.unwrap(a), n))]] for n in evals}
+                                       for i, a in enumerate(out)]}
                 rec["members"] = []
                 for i, a in enumerate(out):
                     a = evo.unwrap(a)
@@ -617,7 +671,16 @@ class C02(vlib.Driver):
                 change = f"(Upd [({op[1]}%nat, {entry(after[op[1]])})])"
             else:
                 change = "(Full [{}])".format("; ".join(entry(ag) for ag in after))
-            gsteps.append("(mkG [{}] {} {} [{}])".format("; ".join(ops), change, learn, "; ".join(arch)))
+            acts = []
+            ac = rec.get("act") if k == "mutate" else None
+            if ac:
+                ids = lambda l: "[" + "; ".join(str(sid("act:" + str(x))) for x in l) + "]"
+                for i, kind in enumerate(rec["kinds"]):
+                    if kind == "act" and rec["labels"][i] == "act" and i < len(ac["nets"]):
+                        for n, (bef, aft) in ac["nets"][i].items():
+                            for b_, a_ in zip(bef, aft):
+                                acts.append("(mkAct {} {} {} {})".format(ids(ac["orig"]), sid("act:" + str(b_)), sid("act:" + str(a_)), ids(ac["sel_after"])))
+            gsteps.append("(mkG [{}] {} {} [{}] [{}])".format("; ".join(ops), change, learn, "; ".join(arch), "; ".join(acts)))
         p0 = "; ".join(entry(ag) for ag in obs["states"][0])
         return f"check_run2 {w0} [{p0}] [{'; '.join(gsteps)}]"
 
@@ -656,6 +719,33 @@ class C02(vlib.Driver):
                     out.append(Violation("shape", sig("shape", "calls"),
                                          f"{what}: {len(rec['kinds'])} mutation functions were applied to {rec['len_after']} members"))
                     continue
+                ac = rec.get("act")
+                if ac:
+                    # the selection of the Mutations object, the caller's list and the default-argument list are never consumed
+                    for what_, got, want in (("object", ac["sel_after"], ac["orig"]), ("caller", ac["caller_after"], ac["orig"]),
+                                             ("default", ac["default_after"], DEFAULT_SELECTION),
+                                             ("creation", rec.get("sel_at_creation"), ac["orig"])):
+                        if got is not None and list(got) != list(want):
+                            out.append(Violation("act-selection", sig("actselection", what_),
+                                                 f"{what}: the activation selection ({what_}) is {got} after the call, it was {want}"))
+                            break
+                    # an agent that reports "act" has, in every evaluation network, another activation out of the ORIGINAL selection
+                    for i, kind in enumerate(rec["kinds"]):
+                        if kind != "act" or rec["labels"][i] != "act" or i >= len(ac["nets"]):
+                            continue
+                        for n, (bef, aft) in ac["nets"][i].items():
+                            for b_, a_ in zip(bef, aft):
+                                opts = list(ac["orig"])
+                                if len(opts) > 1 and b_ in opts:
+                                    opts.remove(b_)
+                                if a_ not in opts:
+                                    out.append(Violation("act-changed", sig("actchanged", "same" if a_ == b_ else "outside"),
+                                                         f"{what}: member {i} reports 'act' but {n} went from activation {b_} to {a_}; "
+                                                         f"candidates were {opts} (selection {ac['orig']})"))
+                                    break
+                            else:
+                                continue
+                            break
                 if op[1].get("mutate_elite") is False and rec["kinds"] and rec["kinds"][0] != "none":
                     out.append(Violation("elite", sig("elite", rec["kinds"][0]),
                                          f"{what}: mutate_elite=False but the first member (the elite) received a '{rec['kinds'][0]}' mutation"))
